@@ -633,3 +633,14 @@ fn truncate(s: &str, n: usize) -> String {
         format!("{}…", &s[..end])
     }
 }
+
+/// Takes the last recorded panic of this thread ("file:line: message"), if any. Used by engines
+/// that run the code under test inside spawned tasks (where tokio catches the unwind).
+pub fn take_panic() -> Option<String> {
+    LAST_PANIC
+        .with(|p| p.borrow_mut().take())
+        .map(|(l, m)| {
+            let short = l.rsplit("/src/").next().unwrap_or(&l).to_string();
+            format!("{short}: {m}")
+        })
+}
